@@ -50,43 +50,30 @@ CHECKS = {
     "C14": _e("Store only after request match + Merkle proof under the requested hash, re-request pairing after removal of the outstanding entry, "
               "identifier = content hash behind a rejecting comparison, responder table, no unreviewed panic under handle_response/answer_request.",
               "DESIGN.md §3 C14", "guard dominance, pairing (remove => re-issue on every non-storing exit), provenance"),
-    "C15": _e("Index exhaustion in both proof walks, length bound dominating EMPTY_ROOTS indexing, side/label table, last-leaf rule and the "
+    "C15": _e("Index exhaustion in both proof walks (accepted index domain evaluated to be exactly index < 2^len on a finite grid), length bound dominating EMPTY_ROOTS indexing, side/label table, last-leaf rule and the "
               "EMPTY_ROOTS recurrence recomputed with hashlib from const-evaluated bytes, callers pass the index they act on.", "DESIGN.md §3 C15",
               "dependence of verdict on residual index, const recomputation, guard dominance"),
     "C16": _e("No ambient nondeterminism (thread RNG, clocks, env, hash-order iteration) reachable from relay/tree computation or sampler "
               "constructors, seed provenance (slot, slice / slot, shred), cache key = seed inputs, forwarding unconditional on the receive path.",
               "DESIGN.md §3 C16", "effect sets closed over the call graph + provenance"),
     "C17": _e("Determinism of all sampling strategies and constructors (same effect rule), reset on every path of the decaying sampler, reviewed "
-              "panic sites of constructors/samplers, committee indexed by ShredIndex with TOTAL_SHREDS seats. Numerical guarantees are not decided.",
-              "DESIGN.md §3 C17", "effect sets, must-pass-through, reviewed panic sites"),
+              "panic sites of constructors/samplers, committee indexed by ShredIndex with TOTAL_SHREDS seats, FA1 phase 1 (floor(f*k) required seats: formula "
+              "shape, unconditional, sibling constructors agree, always emitted). Numerical guarantees over all distributions/seeds are not decided.",
+              "DESIGN.md §3 C17, §8.3", "effect sets, must-pass-through, reviewed panic sites, sibling cross-check + exact guard set"),
     "C18": _e("No unreviewed panic site reachable from recover_from_standstill, bundle ranges, field coverage of get_certs/get_own_votes, Votor "
               "forwards unconditionally, trigger guard in standstill_loop.", "DESIGN.md §3 C18", "panic-site closure, provenance, ADT field coverage, guard dominance"),
     "C19": _e("Single exact decoding door with MTU-capped preallocation, SchemaRead/SchemaWrite symmetry over the wire type graph, hand-written "
               "impl pairs agree (ordered primitive sequence), bounded indices validate on read, worst-case encoded size of every wire root <= MTU.",
               "DESIGN.md §3 C19", "type-graph walk + max-encoded-size calculator + reader/writer sequence agreement"),
     "C20": _e("Fork isolation by typing (no unsafe, Freeze nodes, only Arc::make_mut yields &mut into shared nodes, no &mut/Arc<Node> escapes; "
-              "compile-fail witness), lane-wise wrapping commitment algebra, engine determinism (effect rule, ordered map, seed table).",
+              "compile-fail witness), trie walks decide hits by whole-key equality and navigate by chunk_at(key, depth), lane-wise wrapping commitment algebra, "
+              "engine determinism (effect rule, ordered map, seed table).",
               "DESIGN.md §3 C20", "type facts (Freeze, unsafe), who-may-call, effect sets"),
 }
 
 NOT_APPLICABLE = {
     "C02": "liveness after GST quantifies over real-time delays, timer firings and message schedules; no sound static argument in reach bounds them, "
            "and its structural prerequisites (re-broadcast, timeouts, ParentReady emission) are owned by C03/C05/C07/C18 - claiming C02 through them would be a proxy",
-    "C01": "rule module not built yet in this round (planned: thresholds + wiring obligations)",
-    "C04": "rule module not built yet in this round",
-    "C06": "rule module not built yet in this round",
-    "C07": "rule module not built yet in this round",
-    "C09": "rule module not built yet in this round",
-    "C10": "rule module not built yet in this round",
-    "C11": "rule module not built yet in this round",
-    "C12": "rule module not built yet in this round",
-    "C13": "rule module not built yet in this round",
-    "C14": "rule module not built yet in this round",
-    "C15": "rule module not built yet in this round",
-    "C16": "rule module not built yet in this round",
-    "C17": "rule module not built yet in this round",
-    "C19": "rule module not built yet in this round",
-    "C20": "rule module not built yet in this round",
 }
 
 NOTES = ("Technique family: static analysis only. Nothing registered here executes alpenglow code; `cargo +nightly check` type-checks /repo while "
